@@ -87,6 +87,61 @@ def round2(q):
     return f if f % 2 == 0 else f + 1
 
 
+def load_impl(text, ising, d):
+    """the real loader on a file holding `text`: ('ok', dim, const100, {(i,j): hundredths}) or ('err', kind)"""
+    from vrpqubo.tools import load_tools
+    fn = os.path.join(d, "variant.txt")
+    with open(fn, "w", encoding="utf-8") as f:
+        f.write(text)
+    try:
+        Lm, Lc = (load_tools.load_ising_matrix if ising else load_tools.load_qubo_matrix)(fn)
+    except Exception as e:  # noqa
+        return ("err", core.err_kind(e))
+    Lm = Lm.tocoo()
+    ent = {}
+    for i, j, v in zip(Lm.row, Lm.col, Lm.data):
+        ent[(int(i), int(j))] = ent.get((int(i), int(j)), 0) + hund(float(v)) * 100
+    return ("ok", int(Lm.shape[0]), hund(Lc) * 100, {k: v for k, v in ent.items() if v != 0}, tuple(Lm.shape))
+
+
+def load_model(drv, text, ising):
+    rep = drv.ask(f"loadtext {('#' if ising else 'c').encode().hex()} {text.encode().hex() or '0a'}")
+    tk = rep.split()
+    if tk[0] != "ok":
+        return ("err", rep)
+    dim, const, cnt = int(tk[1]), int(tk[2]), int(tk[3])
+    ent = {}
+    for q in range(cnt):
+        i, j, h = int(tk[4 + 3 * q]), int(tk[5 + 3 * q]), int(tk[6 + 3 * q])
+        ent[(i, j)] = ent.get((i, j), 0) + h
+    return ("ok", dim, const, {k: v for k, v in ent.items() if v != 0})
+
+
+def text_variants(text, rng_key):
+    """the written file and edits of it that stay inside the loader's documented input language"""
+    import random
+    rng = random.Random(rng_key)
+    lines = text.split("\n")
+    if lines and lines[-1] == "":
+        lines = lines[:-1]
+    recs = [k for k, ln in enumerate(lines) if ln[:1].isdigit()]
+    out = [("as-written", text)]
+    out.append(("no-final-newline", "\n".join(lines)))
+    out.append(("size-line-right", "\n".join(lines[:1] + [f"{7} {len(recs)}"] + lines[1:]) + "\n"))
+    out.append(("size-line-wrong", "\n".join(lines[:1] + [f"{7} {len(recs) + 1}"] + lines[1:]) + "\n"))
+    out.append(("p-line", "\n".join(lines[:1] + [f"p qubo 0 9 {len(recs) // 2} {len(recs) - len(recs) // 2}"] + lines[1:]) + "\n"))
+    out.append(("blank-line", "\n".join(lines[:2] + [""] + lines[2:]) + "\n"))
+    if recs:
+        k = rng.choice(recs)
+        t = lines[k].split()
+        out.append(("tabs-and-spaces", "\n".join(lines[:k] + [f"  {t[0]}\t{t[1]}   {t[2]}  "] + lines[k + 1:]) + "\n"))
+        out.append(("one-token-record", "\n".join(lines[:k] + [t[0]] + lines[k + 1:]) + "\n"))
+        out.append(("extra-token", "\n".join(lines[:k] + [lines[k] + " 5"] + lines[k + 1:]) + "\n"))
+        out.append(("records-swapped", "\n".join(lines[:k] + lines[k + 1:] + [lines[k]]) + "\n"))
+    out.append(("second-constant", "\n".join(lines + [lines[1][:1] + " other = -3.25"]) + "\n"))
+    return out
+
+
 def run_testset(case, res):
     from vrpqubo import generate_test_set, test_feasibility
     from vrpqubo.examples.mirp_g1 import get_mirp
@@ -237,6 +292,17 @@ def run_case(case, drv):
             res.fail("export:coefficients", f"file coefficients differ from the in-memory ones (hundredths): missing {miss}, extra {extra}, wrong {wrong}")
         if cline is None or round2(Fraction(cline.strip())) != round2(cst) or Fraction(cline.strip()) * 100 != round2(cst):
             res.fail("export:constant", f"constant line {cline!r} vs in-memory {fs(cst)}")
+        # ---------------- loader, text level: the model of load_matrix on the real file and on edited files
+        for label, vtext in text_variants(text, res.key):
+            li, lm = load_impl(vtext, ising, d), load_model(drv, vtext, ising)
+            res.features.append(f"loadtext:{label}:{li[0]}")
+            if li[0] != lm[0]:
+                res.disagree(f"load_matrix status on variant {label}", li[:2], lm[:2])
+            elif li[0] == "ok":
+                if li[4][0] != li[4][1]:
+                    res.fail("load:not-square", f"loader returned shape {li[4]} on variant {label}")
+                if li[1:4] != lm[1:4]:
+                    res.disagree(f"load_matrix result on variant {label}", li[1:4], lm[1:4])
         # ---------------- loader
         try:
             Lm, Lc = (load_tools.load_ising_matrix if ising else load_tools.load_qubo_matrix)(fn)
